@@ -1,3 +1,5 @@
+import Gaftools.Props.TieA6
 import Gaftools.Props.TieA2
 #print axioms Gaftools.TieA.processAlignment_gen
 #print axioms Gaftools.TieA.sortNode_gen
+#print axioms Gaftools.TieA.loopStep_gen
